@@ -17,6 +17,7 @@ from sa.pyfront import Program
 from sa.symex import Interp, flat_guards
 
 RULES = {
+    "R-C14-j": "the dimensions the walk reads are well-formed whenever the library built them: every operation that stores row ids stores them strictly increasing and non-empty (imported from C07 rules a and b) - the merge-based intersections and the row lists handed to callbacks depend on it",
     "R-C14-i": "the intersection kernel the walk calls accepts the row-id arrays of any well-formed index, strided views included (general [:] memoryview parameters)",
     "R-C14-a": "every callback invocation / recursion carries (base ++ entry coords, entry rows | INTERSECT(base rows, entry rows)) from one loop iteration, or (base ++ (-1,), base rows)",
     "R-C14-b": "every emission, and every recursion on an intersection, is dominated by a truthiness test of len(rows)",
@@ -93,6 +94,23 @@ def analyse(prog, rep):
             elif x.op == "tuple" and len(x.args) == 1 and tm.is_const(x.args[0], -1):
                 cform = "margin"
         if cform is None:
+            # recognisably wrong combinations of the SAME two operands (anything else is not decided)
+            def is_part(x):
+                return x.op == "dkey" or (x.op == "tuple" and len(x.args) == 1 and tm.is_const(x.args[0], -1))
+            wrong = None
+            if C.op == "binop" and {C.args[1] == base_coords, C.args[2] == base_coords} == {True, False} and is_part(C.args[2] if C.args[1] == base_coords else C.args[1]):
+                if C.args[0] != "+":
+                    wrong = "the prefix and this dimension's coordinates are combined with `%s` (tuples concatenate with + only)" % C.args[0]
+                else:
+                    wrong = "this dimension's coordinates are put BEFORE the prefix: the cell's coordinates come out in reverse dimension order"
+            elif C == base_coords:
+                wrong = "this dimension's coordinates are dropped: every entry of the dimension is presented under its parent's coordinates"
+            elif is_part(C):
+                wrong = "the prefix (the outer dimensions' coordinates) is dropped"
+            if wrong:
+                rep.violated("R-C14-a", "%s@%d" % (where, ev.line), "coordinates = prefix + this dimension's coordinates", wrong + ": %s" % tm.show(C)[:60],
+                             witness={"inputs": "three dimensions with at least one uncommon intersection in all three"})
+                continue
             unknown.append((ev, "coordinates %s" % tm.show(C)[:60]))
             continue
         g0 = list(ev.guards)
@@ -342,7 +360,7 @@ def main(tier):
     rep = core.Report("C14", level="other", rules=RULES, tier=tier,
                       declined="equality of the delivered row ids with a brute-force oracle (values); decided is the schema that makes it true, given exact intersection (C08) and well-formed entries (C07)")
     rep.trusted_base = ["CPython ast", "symbolic walker (loop bodies entered once with symbolic entries)"]
-    rep.assume("entries of a dimension are non-empty (C07); set_intersect_merge_np is exact (C08)")
+    rep.assume("set_intersect_merge_np is exact (C08); caller-built indexes are well-formed (library-built ones: R-C14-j)")
     prog = Program()
     analyse(prog, rep)
     walk_rules(prog, rep)
@@ -352,6 +370,22 @@ def main(tier):
     import c08
     funcs = [f for f in cyfront.functions(cyfront.load()) if f.name == "set_intersect_merge_np"]
     rep.floor("R-C14-i", 2, c08.check_general_views(rep, funcs, rule="R-C14-i"))
+    # R-C14-j: the walk intersects the dimensions' entries with a merge kernel and hands them to the callbacks as they are:
+    # what it presents is right only for entries that are strictly increasing and non-empty.  That is not left as an
+    # assumption about the caller: every library operation that builds or updates an index is held to it (C07 rules a, b)
+    import c07
+    sub7 = core.Report("C07", level="other", rules=c07.RULES, tier=tier)
+    st7 = {"sites": 0}
+    ii7 = prog.cls("iindexes", "iindex")
+    for fi7 in [f for n7, f in ii7.methods.items() if n7 not in ("__init__",)] + [prog.func("iindexes", "column_stack")]:
+        c07.analyse_root(prog, fi7, sub7, st7)
+    k7 = 0
+    for o in sub7.obls:
+        if o.rule in ("R-C07-a", "R-C07-b"):
+            k7 += 1
+            rep.add("R-C14-j", o.where, "[%s] %s" % (o.rule, o.construct), o.status, o.detail, True,
+                    o.witness if o.status != "VIOLATED" else {"history": "a dimension produced by this operation is walked: the merge kernel assumes increasing row ids, so some non-empty combinations are presented with a subset of their rows or not at all"})
+    rep.floor("R-C14-j", 20, k7)
     return rep.finish()
 
 
